@@ -103,6 +103,24 @@ class Check:
 
 
 # ------------------------------------------------------------------ proof gate
+def coqchk_gate(pid):
+    """thorough tier: independent re-check of the compiled property file and everything it depends on"""
+    t0 = time.time()
+    try:
+        q = subprocess.run(["coqchk", "-silent", "-o", "-R", lib.COQDIR, "Cfi", "Cfi.Properties." + pid],
+                           stdout=subprocess.PIPE, stderr=subprocess.STDOUT, timeout=3000, cwd=lib.COQDIR)
+    except Exception as e:
+        return {"ok": False, "summary": "coqchk failed to run: %s" % e, "wall_s": round(time.time() - t0, 1)}
+    out = q.stdout.decode(errors="replace")
+    i = out.find("CONTEXT SUMMARY")
+    summary = out[i:] if i >= 0 else out[-800:]
+    axioms = re.findall(r"^\s{4,}([A-Za-z_][A-Za-z0-9_.']*)\s*$", summary.split("* Axioms:")[1].split("* Constants")[0], flags=re.M) if "* Axioms:" in summary else []
+    bad = [a for a in axioms if a not in ALLOWED_AXIOMS and not a.endswith(tuple("." + x.split(".")[-1] for x in ALLOWED_AXIOMS))]
+    ok = q.returncode == 0 and not bad and "type-in-type: <none>" in summary and "unsafe (co)fixpoints: <none>" in summary \
+        and "positivity is assumed: <none>" in summary
+    return {"ok": ok, "summary": summary.strip()[:1500], "axioms": axioms, "wall_s": round(time.time() - t0, 1)}
+
+
 def proof_gate(pid, theorems):
     """A. of the protocol: the property file is compiled against the current model sources, its
     Print Assumptions output lists only allow-listed axioms, the sources contain no escape hatch."""
@@ -249,6 +267,13 @@ def run_check(chk, tier, seed, replay=None, max_report=5):
         except OSError:
             pass
     gate = proof_gate(pid, chk.theorems)
+    chk_res = None
+    if tier == "thorough":
+        chk_res = coqchk_gate(pid)
+        gate["coqchk"] = chk_res
+        if not chk_res["ok"]:
+            gate["ok"] = False
+            gate["problems"].append("coqchk: " + chk_res["summary"][:300])
 
     # ---- cases
     cases = list(chk.gen(tier, rng))
@@ -410,6 +435,7 @@ def run_check(chk, tier, seed, replay=None, max_report=5):
                 "Python harness: generators, implementation runner (public API), canonicaliser, property oracle",
             ],
             "theorems": chk.theorems,
+            "coqchk": gate.get("coqchk"),
             "proof_gate_ok": gate["ok"],
             "proof_gate_problems": gate["problems"],
             "evaluations": len(cases),
